@@ -2,6 +2,8 @@ pub mod c03;
 pub mod c04;
 pub mod c04_l2;
 pub mod c05;
+pub mod c06;
+pub mod c06_l2;
 
 use crate::engine::Run;
 
@@ -10,6 +12,7 @@ pub fn dispatch(run: &mut Run) -> bool {
     "C03" => c03::run(run),
     "C04" => c04::run(run),
     "C05" => c05::run(run),
+    "C06" => c06::run(run),
     _ => return false,
   }
   true
